@@ -59,11 +59,33 @@ func decide(ms []mrule, res string, live uint64, b uint64) string {
 	return ""
 }
 
+// panicStat is a user statistic slot ordered after the library's own stat slot; it panics in OnEntryPassed
+// for entries flagged with 1 (the chain recovers and the request stays admitted). Capacity accounting must
+// not depend on it: an admitted entry that exits frees its unit.
+type panicStat struct{}
+
+func (panicStat) Order() uint32 { return 1500 }
+func (panicStat) OnEntryPassed(ctx *base.EntryContext) {
+	if ctx.Input.Flag == 1 {
+		panic("user statistic slot panics")
+	}
+}
+func (panicStat) OnEntryBlocked(*base.EntryContext, *base.BlockError) {}
+func (panicStat) OnCompleted(*base.EntryContext)                      {}
+
 func TestSequential(t *testing.T) {
 	hx.Check(t, hx.N{Quick: 36000, Thorough: 400000}, func(t *rapid.T, c *hx.Case) {
 		hx.Reset(hx.Epoch + uint64(rapid.IntRange(0, 999).Draw(t, "t0")))
 		exP5 := hx.Known("P5")
 		ms := drawRules(t, c, []string{"a", "b"}, true)
+		var chainOpt []sentinel.EntryOption
+		userSlot := rapid.IntRange(0, 3).Draw(t, "userStatSlot") == 0
+		if userSlot {
+			sc := sentinel.BuildDefaultSlotChain()
+			sc.AddStatSlot(panicStat{})
+			chainOpt = []sentinel.EntryOption{sentinel.WithSlotChain(sc)}
+			c.Class("custom-chain-with-panicking-user-stat-slot")
+		}
 		type lv struct {
 			id  int
 			e   *base.SentinelEntry
@@ -95,7 +117,11 @@ func TestSequential(t *testing.T) {
 					}
 				}
 				exp := decide(ms, res, live[res], b)
-				e, blk := sentinel.Entry(res, sentinel.WithBatchCount(uint32(b)))
+				opts := append([]sentinel.EntryOption{sentinel.WithBatchCount(uint32(b))}, chainOpt...)
+				if userSlot && rapid.IntRange(0, 2).Draw(t, "slotPanics") == 0 {
+					opts = append(opts, sentinel.WithFlag(1))
+				}
+				e, blk := sentinel.Entry(res, opts...)
 				c.Op("Entry(%s,batch %d) live=%d -> blocked=%v", res, b, live[res], blk != nil)
 				if (exp != "") != (blk != nil) {
 					if blk == nil {
